@@ -496,9 +496,13 @@ ObsChecks(h0, obs) ==
       wrong == {i \in 1..Len(h.hmap) :
                   h.reqs[h.hmap[i]].st # "dc" /\ obs.h[i] # Truth(h, h.hmap[i])}
       h2 == IF Len(obs.h) = Len(h.hmap)
+            \* D15: a completed handle aliases a later in-flight operation that received the same
+            \* identifier after the 16-bit counter wrapped
             THEN CheckKF(h1, wrong = {}, "C18", "an operation handle misreports its status",
-                         "D6", \E i \in wrong : h.reqs[h.hmap[i]].kind = "P2" /\ obs.h[i] = "c"
-                                                 /\ h.reqs[h.hmap[i]].ph = "rec")
+                         "D15", \A i \in wrong :
+                                  /\ obs.h[i] = "p" /\ Truth(h, h.hmap[i]) = "c"
+                                  /\ \E j \in 1..Len(h.reqs) : j # h.hmap[i] /\ InFlight(h, j)
+                                         /\ h.reqs[j].id = h.reqs[h.hmap[i]].id)
             ELSE h1
       \* C02 / C03: an accepted, unacknowledged request is still held
       held == {k \in 1..Len(h.reqs) : InFlight(h, k)}
